@@ -39,6 +39,10 @@ type engineTransport struct {
 func (t engineTransport) RoundTrip(req *http.Request) (*http.Response, error) {
 	rec := httptest.NewRecorder()
 	t.h.ServeHTTP(rec, req)
+	if err := req.Context().Err(); err != nil {
+		// the caller gave up (client time-out) while the server was still working on the request
+		return nil, err
+	}
 	if rec.Code >= 500 && t.w != nil {
 		t.w.mu.Lock()
 		l, _ := t.w.Extra["http-5xx"].([]string)
@@ -272,6 +276,17 @@ func c19Scenarios(tier string) []*Scenario {
 	}
 	for i := range alpha {
 		mk([]int{i})
+		// requests the server works on for several seconds (restart back-off of 7 s; a process that ignores
+		// SIGTERM and is killed after 6 s): the client waits for the outcome like a direct caller
+		if l := alpha[i].Label; l == "restart(a)" || l == "stop(a)" {
+			mk([]int{i})
+			sc := scs[len(scs)-1]
+			sc.ID += "-slow"
+			sc.YAML = projectYAML([]string{"vars:", "  N: 7"}, PC{Name: "a", Restart: "no", Backoff: 7, Lines: []string{"shutdown:", "  timeout_seconds: 6"}},
+				PC{Name: "b", Lines: []string{"environment:", "  - 'K=1'"}})
+			sc.Procs = map[string]*ProcScript{"a": {OnTerm: "ignore"}, "b": {}, "c": {}}
+			sc.TickBudget = 1
+		}
 	}
 	// length 2: a state-changing request followed by any request (quick: a selection)
 	for i := range alpha {
